@@ -140,8 +140,8 @@ theorem start_hooks_sequential_until_first_failure (sc : Scenario) (race : Bool)
   exact h2.1
 
 /-- **… before the listener opens**: no OnStart hook finds the application serving. -/
-theorem start_hooks_before_listener (sc : Scenario) (race : Bool) (i : Nat) (app met : Bool)
-    (h : Ev.startIn i app met ∈ (run repaired sc race).log) : app = false := by
+theorem start_hooks_before_listener (sc : Scenario) (race : Bool) (i : Nat) (app met frozen : Bool)
+    (h : Ev.startIn i app met frozen ∈ (run repaired sc race).log) : app = false := by
   obtain ⟨_, h2, _⟩ := lemma_unpack (run_in_language sc race)
   simp only [startsOk, Bool.and_eq_true] at h2
   have := List.all_eq_true.mp h2.2 _ h
@@ -218,12 +218,13 @@ theorem failed_startup_clean (sc : Scenario) (race : Bool)
 /-- **OnReady runs only once the server accepts connections**: every OnReady event was logged by a
     registered hook that found the application serving; no hook runs twice. -/
 theorem ready_only_when_accepting (sc : Scenario) (race : Bool) :
-    (∀ i app met, Ev.ready i app met ∈ (run repaired sc race).log → app = true ∧ i < sc.readies.length) ∧
+    (∀ i app met frozen, Ev.ready i app met frozen ∈ (run repaired sc race).log →
+      app = true ∧ i < sc.readies.length) ∧
     ((run repaired sc race).log.filterMap readyIdx).Nodup := by
   obtain ⟨_, _, h3, _⟩ := lemma_unpack (run_in_language sc race)
   simp only [readiesOk, Bool.and_eq_true, nodupNat_iff] at h3
   refine ⟨?_, h3.2⟩
-  intro i app met h
+  intro i app met frozen h
   have := List.all_eq_true.mp h3.1 _ h
   simpa [readyProbeOk] using this
 
@@ -399,7 +400,8 @@ def wFail : Scenario :=
 
 example : wFail.starts.any startFails = true := by decide
 example : (run repaired wFail false).log =
-    [.startIn 0 false true, .startOut 0, .startIn 1 false true, .startOut 1, .startIn 2 false true, .startOut 2,
+    [.startIn 0 false true false, .startOut 0, .startIn 1 false true false, .startOut 1,
+     .startIn 2 false true false, .startOut 2,
      .flush, .ret] := by decide
 example : (run repaired wFail false).res = .errStartup ∧ (run repaired wFail false).finMet = false := by decide
 
